@@ -12,7 +12,7 @@
     case stays small (Coq parses long list literals slowly). *)
 From Coq Require Import List NArith ZArith Bool.
 Import ListNotations.
-Require Import Aurora.Base.Corr Aurora.C02.Model Aurora.C02.Spec.
+Require Import Aurora.Base.Corr Aurora.C02.Model Aurora.C02.Spec Aurora.C02.Cursor Aurora.C02.CursorPipe.
 Local Open Scope N_scope.
 
 Definition m32 (n : N) : N := N.land n 4294967295.
@@ -71,6 +71,14 @@ Definition model_seg (cs b refLen : nat) (data : bytes) (cuts : list N) : (list 
   | Err e => ([], [], inl (err_code e))
   end.
 
+(** the same through the buffer-and-cursor writer (Cursor.v), with a buffer that holds
+    eight full levels at these parameters *)
+Definition model_seg_c (cs b refLen : nat) (data : bytes) (cuts : list N) : (list Z * list bytes * (N + bytes)) :=
+  match cupload (toy_hash refLen) cs b refLen (8 * b * (refLen + 8)) (split_at data (map N.to_nat cuts)) with
+  | Ok u => (u_rets u, u_log u, inr (u_root u))
+  | Err e => ([], [], inl (err_code e))
+  end.
+
 Definition sum_eqb (a b : N + bytes) : bool :=
   match a, b with
   | inl x, inl y => N.eqb x y
@@ -81,13 +89,19 @@ Definition dig_eqb (a b : N * N * N) : bool :=
   let '(a1, a2, a3) := a in let '(b1, b2, b3) := b in N.eqb a1 b1 && N.eqb a2 b2 && N.eqb a3 b3.
 
 (** on an error only the class is compared (the Go side stops at the failing call) *)
-Definition check_seg (cs b refLen : nat) (data : bytes) (o : seg_obs) : bool :=
-  let '(rets, lg, r) := model_seg cs b refLen data (so_cuts o) in
+Definition check_seg_with (m : list Z * list bytes * (N + bytes)) (o : seg_obs) : bool :=
+  let '(rets, lg, r) := m in
   match r with
   | inl _ => sum_eqb r (so_res o)
   | inr _ => sum_eqb r (so_res o) && list_eqb Z.eqb rets (match so_rets o with Some l => l | None => map Z.of_N (so_cuts o) end) && dig_eqb (digest lg) (so_dig o)
              && match so_log o with Some l => list_eqb bytes_eqb lg l | None => true end
   end.
+
+(** both models — the level-list writer and the buffer-and-cursor writer — must reproduce
+    the observation *)
+Definition check_seg (cs b refLen : nat) (data : bytes) (o : seg_obs) : bool :=
+  check_seg_with (model_seg cs b refLen data (so_cuts o)) o
+  && check_seg_with (model_seg_c cs b refLen data (so_cuts o)) o.
 
 Definition check_case (c : case) : bool :=
   match c with
@@ -100,7 +114,8 @@ Definition explain_case (c : case) :=
       let data := gen_data n dseed in
       match filter (fun o => negb (check_seg cs b refLen data o)) obs with
       | o :: _ => let '(rets, lg, r) := model_seg cs b refLen data (so_cuts o) in
-                  Some (so_cuts o, (rets, digest lg, r), (so_rets o, so_dig o, so_res o), (lg, so_log o))
+                  let '(retsc, lgc, rc) := model_seg_c cs b refLen data (so_cuts o) in
+                  Some (so_cuts o, (rets, digest lg, r), (retsc, digest lgc, rc), (so_rets o, so_dig o, so_res o), (lg, so_log o))
       | [] => None
       end
   end.
